@@ -66,7 +66,11 @@ Definition so_covered (d : db) (c : so_cq) : Prop :=
   match c with
   | CqInsertNode l => let id := fst (insert_node_db d) in so_kvs_ok (reserve_kv (snd (insert_node_db d)) id) id l
   | CqInsertValues id l => graph_index (gr d) id = true /\ so_iors_ok (reserve_kv d id) id l
-  | CqInsertEdge f t => (0 < f)%Z /\ (0 < t)%Z /\ is_node (gr d) f = true /\ is_node (gr d) t = true
+  | CqInsertEdge f t =>
+    (0 < f)%Z /\ (0 < t)%Z /\
+    (is_node (gr d) f = true /\ is_node (gr d) t = true \/
+     (* an endpoint that is not a node: the query is rejected, nothing may change (database at rest) *)
+     is_node (gr d) f && is_node (gr d) t = false /\ undo d = [])
   | CqRemove id =>
     kvs_get (vals d) id <> [] /\
     (forall x, In x (kvs_get (vals d) id) -> idx_find (indexes d) (fst x) = None) /\
@@ -123,11 +127,14 @@ Section CoveredStep.
         exists h', w'. unfold cq_out. rewrite R. auto.
       + eapply graph_index_ok; eassumption.
     - (* insert edge *)
-      destruct Hc as (Pf & Pt & Nf & Nt). destruct (wf_new_ids_ok _ W Hcap) as [_ Hix].
-      eapply cwp_mono; [|eapply (so_exec_insert_edge_stored fl rv); [exact H|exact Hh|exact OK|exact Nf|exact Nt|exact Pf|exact Pt| |exact Hix]].
-      + intros r sp' (h' & w' & -> & R & H' & Hh' & D' & F').
-        exists h', w'. unfold cq_out. rewrite R. auto.
-      + apply wf_so_edge_ok; assumption.
+      destruct Hc as (Pf & Pt & [[Nf Nt]|[Hn U]]); [destruct (wf_new_ids_ok _ W Hcap) as [_ Hix]|].
+      + eapply cwp_mono; [|eapply (so_exec_insert_edge_stored fl rv); [exact H|exact Hh|exact OK|exact Nf|exact Nt|exact Pf|exact Pt| |exact Hix]].
+        * intros r sp' (h' & w' & -> & R & H' & Hh' & D' & F').
+          exists h', w'. unfold cq_out. rewrite R. auto.
+        * apply wf_so_edge_ok; assumption.
+      + eapply cwp_mono; [|eapply (so_exec_insert_edge_rejected_stored fl rv); [exact H|exact Hh|exact OK|exact Pf|exact Pt|exact Hn|exact U]].
+        intros r sp' (-> & R & Ed & H' & D' & F').
+        exists h, w. unfold cq_out. rewrite R, Ed. auto.
     - (* remove *)
       destruct Hc as (Hne & Hnix & [[He Ie]|(Hn & Nn & Al & Ef & Et)]).
       + apply cwp_bind. eapply cwp_mono; [|eapply (so_exec_remove_edge_stored fl rv);
@@ -141,32 +148,34 @@ Section CoveredStep.
         exists h', w'. unfold cq_out. rewrite R. auto.
   Qed.
 
-  (* a covered query succeeds: the state before the commit has the graph of the result *)
-  Lemma covered_step d c :
-    GraphSim.wf (gr d) -> so_covered d c ->
-    exists d1 n els, exec_mut_step rv d (cq_query c) = StOk d1 (n, els).
-  Proof.
-    intros W [Hcap Hc]. destruct c as [l|id l|f t|id]; cbn [cq_query].
-    - eexists _, _, _. apply step_insert_node.
-    - destruct Hc as [G _]. eexists _, _, _. apply step_insert_values. exact G.
-    - destruct Hc as (Pf & Pt & Nf & Nt).
-      assert (E : exists e d1, insert_edge_db d f t = DbModel.ROk (e, d1)).
-      { unfold insert_edge_db, insert_edge. rewrite Nf, Nt. cbn [andb].
-        destruct (get_free_index (gr d)) as [slot g1]. eexists _, _. reflexivity. }
-      destruct E as (e & d1 & E). eexists _, _, _. eapply step_insert_edge; [| |exact E].
-      + unfold graph_index. destruct (Z.ltb_spec f 0) as [X|_]; [lia|]. destruct (Z.ltb_spec 0 f) as [_|X]; [exact Nf|lia].
-      + unfold graph_index. destruct (Z.ltb_spec t 0) as [X|_]; [lia|]. destruct (Z.ltb_spec 0 t) as [_|X]; [exact Nt|lia].
-    - destruct Hc as (_ & _ & [[He Ie]|(Hn & Nn & Al & Ef & Et)]).
-      + destruct (GraphWf.wf_remove_edge _ id W) as [G' [EG _]]; [lia|]. eexists _, _, _. eapply step_remove_edge; eassumption.
-      + destruct (GraphWf.wf_remove_node _ id W) as [G' [EG _]]; [lia|]. eexists _, _, _. apply step_remove_isolated_node; try assumption.
-        unfold remove_node_db. rewrite Nn. cbn [negb]. rewrite (node_edges_isolated d id Ef Et). cbn [fold_left]. rewrite EG. reflexivity.
-  Qed.
-
   Lemma exec_peak d q d1 n els :
     is_mutating q = true -> exec_mut_step rv d q = StOk d1 (n, els) ->
     gr (fst (exec_in_txn rv d q)) = gr (fst (Queries.exec rv d q)).
   Proof.
     intros M E. rewrite (exec_of_step rv d q d1 n els M E). unfold exec_in_txn. rewrite M, E. reflexivity.
+  Qed.
+
+  (* the state before the commit / rollback of a covered query has the graph of the result *)
+  Lemma covered_peak d c :
+    GraphSim.wf (gr d) -> so_covered d c ->
+    gr (fst (exec_in_txn rv d (cq_query c))) = gr (fst (Queries.exec rv d (cq_query c))).
+  Proof.
+    intros W [Hcap Hc]. destruct c as [l|id l|f t|id]; cbn [cq_query].
+    - eapply exec_peak; [reflexivity|apply step_insert_node].
+    - destruct Hc as [G _]. eapply exec_peak; [reflexivity|apply step_insert_values; exact G].
+    - destruct Hc as (Pf & Pt & [[Nf Nt]|[Hn U]]).
+      + assert (E : exists e d1, insert_edge_db d f t = DbModel.ROk (e, d1)).
+        { unfold insert_edge_db, insert_edge. rewrite Nf, Nt. cbn [andb].
+          destruct (get_free_index (gr d)) as [slot g1]. eexists _, _. reflexivity. }
+        destruct E as (e & d1 & E). eapply exec_peak; [reflexivity|]. eapply step_insert_edge; [| |exact E].
+        * unfold graph_index. destruct (Z.ltb_spec f 0) as [X|_]; [lia|]. destruct (Z.ltb_spec 0 f) as [_|X]; [exact Nf|lia].
+        * unfold graph_index. destruct (Z.ltb_spec t 0) as [X|_]; [lia|]. destruct (Z.ltb_spec 0 t) as [_|X]; [exact Nt|lia].
+      + destruct (step_insert_edge_fail rv d f t Pf Pt Hn) as [e E].
+        rewrite (exec_of_err rv d (lq_insert_edge f t) e eq_refl E U). unfold exec_in_txn. rewrite E. reflexivity.
+    - destruct Hc as (_ & _ & [[He Ie]|(Hn & Nn & Al & Ef & Et)]).
+      + destruct (GraphWf.wf_remove_edge _ id W) as [G' [EG _]]; [lia|]. eapply exec_peak; [reflexivity|]. eapply step_remove_edge; eassumption.
+      + destruct (GraphWf.wf_remove_node _ id W) as [G' [EG _]]; [lia|]. eapply exec_peak; [reflexivity|]. apply step_remove_isolated_node; try assumption.
+        unfold remove_node_db. rewrite Nn. cbn [negb]. rewrite (node_edges_isolated d id Ef Et). cbn [fold_left]. rewrite EG. reflexivity.
   Qed.
 
   Lemma cq_mutating c : is_mutating (cq_query c) = true.
@@ -220,11 +229,10 @@ Section CoveredHist.
     induction l as [|c t IH]; intros d w h sp H Hh HI OK; cbn [cq_runs cq_model so_covered_all fst snd] in *.
     - cbn [cwp]. exists h, w. repeat (split; [first [reflexivity|assumption]|]). apply frame_refl. intros j; reflexivity.
     - destruct OK as (Hc & Hq & Hcap' & OK'). pose proof HI as [[W _] _].
-      destruct (covered_step rv_fixed d c W Hc) as (d1 & n & els & ES).
       assert (HI' : HistoryAtomicProofs.HInv (fst (Queries.exec rv_fixed d (cq_query c)))).
       { apply (HistoryAtomicProofs.item_atomic rv_fixed eq_refl eq_refl eq_refl eq_refl eq_refl TraversalLiveProofs.search_live_fixed
                  d (HistoryAtomicProofs.HQuery (cq_query c)) Hq HI).
-        cbn [HistoryAtomicProofs.item_peak]. rewrite (exec_peak rv_fixed d _ d1 n els (cq_mutating c) ES).
+        cbn [HistoryAtomicProofs.item_peak]. rewrite (covered_peak rv_fixed d c W Hc).
         unfold so_cap_ok in Hcap'. unfold UndoGraph.two63z. lia. }
       apply cwp_bind. eapply cwp_mono; [|eapply (so_cq_stored fl rv_fixed); eassumption].
       intros r sp1 (h1 & w1 & -> & H1 & Hh1 & D1 & F1). cbn [kont fst snd].
